@@ -2,10 +2,12 @@ module sxverif/harness
 
 go 1.19
 
-require github.com/v-byte-cpu/sx v0.0.0
+require (
+	github.com/google/gopacket v1.1.20-0.20210304165259-20562ffb40f8
+	github.com/v-byte-cpu/sx v0.0.0
+)
 
 require (
-	github.com/google/gopacket v1.1.20-0.20210304165259-20562ffb40f8 // indirect
 	github.com/josharian/intern v1.0.0 // indirect
 	github.com/mailru/easyjson v0.7.7 // indirect
 )
